@@ -151,6 +151,9 @@ def run(F, X, rep):
         PY.e_maxdelay(C, rep, "C19-C")
     i_params_immutable(F, X, rep, "C19-I")
     j_init_values_verbatim(F, X, rep, "C19-J")
+    # "runs with exactly those values": the configured MPP timeout is what the lifecycle sleeps on, for every accepted value
+    if R.need_lc(C, rep, "C19-T"):
+        R.t1_timer_value(C, rep, "C19-T")
 
 
 def _agg_fields(F, X, b, adt):
